@@ -78,6 +78,8 @@ def model(case):
     if k == "ostat_sum":
         h, table = _h(case)
         return [" ".join(["OSTAT"] + _htoks(h, table) + [str(case["n"]), str(pos)]) for pos in range(case["n"])]
+    if k == "exk" and case.get("big"):
+        return None
     if k == "exk":
         h, _ = _h(case)
         o = C.dec_out(case["o"])
@@ -210,6 +212,12 @@ def generate(rnd, tier, scale):
             h = [["i:%d" % (i + 1), rnd.choice([10**6 + 1, 999983, 10**6 + 3, 7])] for i in range(rnd.randint(2, 4))]
             dice = [h] * rnd.randint(3, 5)
         yield dict(k="appear", dice=dice, which=[], o=rnd.choice([o for o, _ in h]))
+    for _ in range(int((20 if tier == "quick" else 200) * scale)):
+        # binomial coefficients beyond 2**53 (judged by the closed form the theorem C09_exactly_k proves; the model is not run)
+        h = [["i:1", rnd.choice([1, 1, 2])], ["i:2", rnd.choice([1, 1, 3])]]
+        n = rnd.randint(56, 80)
+        o = rnd.choice(["i:1", "i:2"])
+        yield dict(k="exk", h=h, o=o, n=n, kk=rnd.randint(n // 2 - 6, n // 2 + 6), extra=[o], big=True)
     n_cases = int((900 if tier == "quick" else 8000) * scale)
     for _ in range(n_cases):
         r = rnd.random()
